@@ -43,6 +43,8 @@ func (c C) nonceTable(fnName string, fn *ssa.Function, stateNonce, txNonce strin
 // C07 every spendable unit is spent at most once.
 func C07(p *ir.Program, r *report.R) {
 	c := C{p, r}
+	// the signature pre-check trusts the mempool cache only for transactions that passed their basic check
+	c05Cache(c)
 	r.Floor = 45
 	r.Explain = "Decided: (in one transaction) the duplicate-key-image test dominates the insertion into the per-transaction set and the subgroup check (ScalarmultKey(KeyImage, CurveOrder) == Identity) is on every path that accepts a confidential input; (in one block) the per-block key-image set test dominates its insertion, after CheckStoreState succeeded, and GetInputKeyImages returns the image of every confidential input; (across blocks / mempool) every iteration of CheckStoreState and checkState that handles a confidential input passes the not-spent-in-store test (checkState additionally not-in-mempool) and checkState pushes every collected image on its success path; (persistence) the images of every confidential transaction are collected by txRawProcess, stored with the block by CommitBlock after SaveBlock and SaveKImages writes every element and returns the batch error; (accounts) the three-way nonce comparison of all six check functions rejects txNonce<stateNonce as too low and txNonce>stateNonce as too high with the exact operands, the nonce is advanced by exactly one for every input on every path of Transit after preTransit succeeded. ADDED after seeded-change testing: SaveUtxo reaches SaveKImages(kImgs) on every path (skipped only for an empty image slice); the per-block and mempool key-image sets are keyed by the image value, not a pointer; in GenerateTransaction every input nonce is the transaction's own Nonce() (reviewed exemption: the account input of a confidential transaction, compared in CheckStoreState). NOT decided: global uniqueness over histories as a set property, mempool/chain interleavings (C15), the cryptographic link between key image and output."
 	r.Trusted = []string{"ringct.ScalarmultKey / CurveOrder / Identity (cgo)", "UTXOStore backend (C19)"}
@@ -406,6 +408,37 @@ func C07(p *ir.Program, r *report.R) {
 		prt := p.Func("app", "processTransaction.preTransit")
 		for _, call := range ir.Calls(prt, "app.processTransaction.buyGas") {
 			c.Guards("app.(*processTransaction).preTransit", "buyGas", call, G{"nonce-checked", "eq(app.processTransaction.checkNonce(tx),nil)"})
+		}
+	}
+	// every confidential transaction of a block goes through CheckStoreState, whatever its kind: for an
+	// account-funded one it is the ONLY comparison of the account input's nonce with the state during
+	// block processing (GenerateTransaction fills that nonce from the state, so checkNonce is vacuous)
+	{
+		cv := p.Func("app", "processState.checkValid")
+		var entry *ssa.BasicBlock
+		ir.Instrs(cv, func(in ssa.Instruction) {
+			if ta, ok := in.(*ssa.TypeAssert); ok && strings.HasSuffix(ta.AssertedType.String(), "types.UTXOTransaction") && ta.CommaOk {
+				// the block entered when the assertion holds
+				for _, u := range *ta.Referrers() {
+					if ex, ok := u.(*ssa.Extract); ok && ex.Index == 1 {
+						for _, uu := range *ex.Referrers() {
+							if ifi, ok := uu.(*ssa.If); ok {
+								entry = ifi.Block().Succs[0]
+							}
+						}
+					}
+				}
+			}
+		})
+		if entry == nil {
+			r.Undecided("K2", "app.(*processState).checkValid/utxo-case", p.Pos(cv.Pos()), "type-switch case for *UTXOTransaction not found")
+		} else {
+			found, hit, tr := ir.FindPath(ir.PathQuery{From: ir.Point{B: entry, I: -1}, Target: ir.IsReturn, Avoid: ir.CallMatcher("types.UTXOTransaction.CheckStoreState")})
+			d := "no return from the confidential-transaction case without CheckStoreState"
+			if found {
+				d += fmt.Sprintf(" — but %s is reached without it, blocks %v", p.InstrPos(hit), tr)
+			}
+			r.Check("K2", "app.(*processState).checkValid/utxo-case/store-state-checked-on-every-path", p.Pos(cv.Pos()), !found, d)
 		}
 	}
 }
